@@ -473,6 +473,7 @@ struct Forker {
 		{
 			size_t s = p + 25, e = err.find_first_of(" \n", s);
 			r.vkind = err.substr(s, e - s);
+			while (!r.vkind.empty() && r.vkind[r.vkind.size() - 1] == ':') r.vkind.erase(r.vkind.size() - 1);
 			first = err.substr(p + 7, err.find('\n', p) - p - 7);
 			if (first.find(" (pc ") != std::string::npos) first = first.substr(0, first.find(" (pc "));
 			if (first.find(" at pc ") != std::string::npos) first = first.substr(0, first.find(" at pc "));
